@@ -93,6 +93,7 @@ type interpreter struct {
 	cur                *frame       // innermost active frame (sequential mode)
 	sched              *scheduler   // concurrent mode, nil otherwise
 	cut                *cutState    // armed loop cut-point, nil otherwise
+	entropy            []*Term      // values handed out by the entropy source so far
 	depth              int
 	bypass             map[string]int
 	initMode           bool
